@@ -10,8 +10,10 @@ would hold for a parser that never reports anything.  Here the error list itself
   (`C01_errors_eq_error_nodes`: each `errors.push` of `parse()` sits inside one
   `start_node(ERROR) … finish_node()`, lossless.rs:150-153, 171-176, 182-188, 203-206, and there is
   no other `start_node(ERROR)`); every message has one of three forms (`C01_error_messages`);
+  an ERROR node holds at most one token and nothing else (`C01_error_node_shape`);
   on a lexed text every ERROR *token* is a direct child of an ERROR node
-  (`C01_error_token_in_error_node`; false for arbitrary token lists, witness below), hence the
+  (`C01_error_token_in_error_node`; false for arbitrary token lists, witness below), so there are
+  at least as many messages as ERROR tokens (`C01_error_tokens_le_errors`), the
   strict reader accepts exactly the texts whose tree has no ERROR node, and an accepted text has no
   ERROR token.
 * B. `from_str` returns `Err(ParseError(parsed.errors))` (lossless.rs:1135-1142): the payload is the
@@ -84,6 +86,19 @@ theorem C01_error_token_rejected (s : Str) (t : Tok) (ht : t ∈ lex s) (hk : t.
     (readRelaxed s).2 ≠ [] ∧ ∀ tr, readStrict s ≠ .ok tr := by
   have hno : ¬ ∃ tr, readStrict s = .ok tr := fun h => C01_no_error_no_error_token s h t ht hk
   refine ⟨fun h => hno ((C01_strict_iff s).2 h), fun tr h => hno ⟨tr, h⟩⟩
+
+/-- for any token list: an ERROR node holds at most one child, a token (the unexpected token the
+    parser bumped; nothing when the input ended) -/
+theorem C01_error_node_shape (ts : List Tok) : errShape (parseTokens ts).tree = true :=
+  parseTokens_errShape ts
+
+/-- every character the lexer could not classify has its own message: the number of ERROR tokens
+    of a text is at most the number of reported errors -/
+theorem C01_error_tokens_le_errors (s : Str) :
+    (lex s).countP isErrTok ≤ (readRelaxed s).2.length := by
+  have := errToks_le (parse s).tree (C01_error_token_in_error_node s) (parseTokens_errShape _)
+  rw [C01_tokens_once] at this
+  rw [C01_relaxed_errors_eq_error_nodes]; exact this
 
 /-! ### B. the strict reader's `Err` value -/
 
@@ -264,6 +279,9 @@ example : (readRelaxed "é".toList).2 = ["expected key", "expected ':', got None
 example : (readRelaxed "é\nA: b\n".toList).2 = ["expected key", "expected ':', got Some(KEY)",
     "expected newline, got KEY", "expected key", "expected ':', got Some(VALUE)"] ∧
     errNodes (readRelaxed "é\nA: b\n".toList).1 = 5 := by
+  decide +kernel
+/-- `C01_error_tokens_le_errors`: three unclassifiable characters, three messages (the bound is tight) -/
+example : (lex "ééé".toList).countP isErrTok = 3 ∧ (readRelaxed "ééé".toList).2.length = 3 := by
   decide +kernel
 /-- an accepted text: no message, no ERROR node, no ERROR token -/
 example : (∃ t, readStrict "A: b\n c\n\n#x\nD: e".toList = .ok t) :=
